@@ -75,4 +75,73 @@ theorem closed_states_finish (w : Bool) :
   · rfl
   · intro h a b; simp [VState.isClosed, h]
 
+/-! ### Only progress restarts the inactivity timer -/
+
+/-- **A data packet that does not advance the stream never touches a timer**: an ST_DATA at or below the
+consumed point (an old duplicate, a retransmission the peer keeps sending because our ACKs are lost) is
+answered with a forced ACK and leaves every timer - the inactivity deadline in particular - exactly where
+it was. So a peer that keeps resending old data cannot keep a closing connection alive. -/
+theorem stale_data_keeps_timers (v : VSock) (c : Ctx) (msg : Msg) (psf : Bool) (v' : VSock) (c' : Ctx) (r : OnAckResult)
+    (hd : msg.h.htype = Gen.TYPE_ST_DATA)
+    (hoff : seqSub msg.h.seqNr (wadd v.lastConsumedRemoteSeqNr 1) < 0)
+    (h : v.processAccepted c msg psf = .ok (v', c', r)) : v'.timers = v.timers := by
+  unfold processAccepted at h
+  simp only [bind, Except.bind, pure, Except.pure] at h
+  split at h
+  · simp at h
+  · rename_i x hx
+    cases hrec : v.recovery.isRecovering <;> cases hrtt : x.snd.newRtt <;> simp only [hrec, hrtt] at h <;>
+    · split at h
+      · simp at h
+      · rw [if_pos hd, if_pos hoff] at h
+        simp only [Except.ok.injEq, Prod.mk.injEq] at h
+        rw [← h.1]
+        rfl
+
+theorem sendControlPacket_inactivity (v : VSock) (c : Ctx) (h : Header) (v' : VSock) (c' : Ctx) (b : Bool)
+    (hs : v.sendControlPacket c h = .ok (v', c', b)) : v'.timers.inactivity = v.timers.inactivity := by
+  unfold sendControlPacket at hs
+  split at hs
+  · simp only [pure, Except.pure, Except.ok.injEq, Prod.mk.injEq] at hs; rw [← hs.1]
+  · split at hs
+    · simp [throw, throwThe, MonadExceptOf.throw] at hs
+    · dsimp only at hs
+      split at hs
+      · simp only [pure, Except.pure, Except.ok.injEq, Prod.mk.injEq] at hs; rw [← hs.1]; rfl
+      · simp only [pure, Except.pure, Except.ok.injEq, Prod.mk.injEq] at hs; rw [← hs.1]
+      · simp [throw, throwThe, MonadExceptOf.throw] at hs
+      · simp [throw, throwThe, MonadExceptOf.throw] at hs
+
+/-- **…and neither does a data packet the reassembly queue does not consume** (already buffered, or beyond
+what the window has room for): whatever ACK it triggers, the inactivity deadline stays where it was. Only a
+packet that advances the consumed point (`Consumed`) - or an acknowledgement that advances ours - restarts it. -/
+theorem unconsumed_data_keeps_inactivity (v : VSock) (c : Ctx) (msg : Msg) (psf : Bool) (v' : VSock) (c' : Ctx) (r : OnAckResult)
+    (hd : msg.h.htype = Gen.TYPE_ST_DATA)
+    (hoff : ¬ seqSub msg.h.seqNr (wadd v.lastConsumedRemoteSeqNr 1) < 0)
+    (rx' : Rx) (ar : AddRemove) (ws : List Wake)
+    (har : v.rx.addRemove msg.h.htype msg.payload (seqSub msg.h.seqNr (wadd v.lastConsumedRemoteSeqNr 1)).toNat = some (rx', ar, ws))
+    (hnc : ar = .unavailable ∨ ar = .alreadyPresent)
+    (h : v.processAccepted c msg psf = .ok (v', c', r)) : v'.timers.inactivity = v.timers.inactivity := by
+  unfold processAccepted at h
+  simp only [bind, Except.bind, pure, Except.pure] at h
+  split at h
+  · simp at h
+  · rename_i x hx
+    cases hrec : v.recovery.isRecovering <;> cases hrtt : x.snd.newRtt <;> simp only [hrec, hrtt] at h <;>
+    · split at h
+      · simp at h
+      · rw [if_pos hd, if_neg hoff] at h
+        simp only [har] at h
+        rcases hnc with rfl | rfl <;> simp only at h <;>
+        · split at h
+          · split at h
+            · simp at h
+            · rename_i v2 c2 b2 hsa
+              simp only [Except.ok.injEq, Prod.mk.injEq] at h
+              rw [← h.1]
+              unfold sendAck at hsa
+              rw [sendControlPacket_inactivity _ _ _ _ _ _ hsa]
+              rfl
+          · simp only [Except.ok.injEq, Prod.mk.injEq] at h
+            rw [← h.1]
 end UtpVerif.Props.C08
